@@ -74,11 +74,11 @@ func init() {
 
 // Alphabets for S(L,Σ) (DESIGN 1.8) and token sets for token-mode sources.
 var alphabets = map[string]string{
-	"blocks":  ">\t# a\n-",
-	"inline":  "*_[]()`\\a\n !",
-	"fences":  "`~>\n a-",
-	"entity":  "&#x;1a<>\n",
-	"lists":   "-1.) \na\t",
+	"blocks": ">\t# a\n-",
+	"inline": "*_[]()`\\a\n !",
+	"fences": "`~>\n a-",
+	"entity": "&#x;1a<>\n",
+	"lists":  "-1.) \na\t",
 }
 
 const tokSep = "\x1f"
@@ -103,7 +103,7 @@ var coreTemplates = []tmpl{
 	{"[a](XX)", 4, 2}, {"[a](<XX>)", 5, 2}, {"![a](XX)", 5, 2}, {"[a]: XX\n\n[a]", 5, 2}, {"<XX>", 1, 2},
 	{"[a](b \"XX\")", 8, 2}, {"[XX]\n\n[a]: b", 1, 2}, {"`XX`", 1, 2}, {"*XX*", 1, 2}, {"&XX;", 1, 2}, {"&#XX;", 2, 2},
 	{"```XX\na\n```", 3, 2}, {"# a {XX}", 5, 2}, {"# a {#XX}", 6, 2}, {"# a {k=XX}", 7, 2}, {"# a {id=XX}", 8, 2}, {"a {id=XX}\n===", 6, 2}, {"# a {class=XX}", 11, 2}, {"a\nXX\n", 2, 2}, {"- a\nXXb", 4, 2},
-	{"> a\nXXb", 4, 2}, {"<!--XX-->", 4, 2}, {"<a href=\"XX\">", 9, 2}, {"1. a\n\n   XXb", 9, 2}, {"\\XX", 1, 2},
+	{"> a\nXXb", 4, 2}, {"[a](&#XX;)", 6, 2}, {"[a](/x&amp;XXp;y)", 11, 2}, {"[a](\\\\XX)", 6, 2}, {"[a](b '&XX;')", 8, 2}, {"<!--XX-->", 4, 2}, {"<a href=\"XX\">", 9, 2}, {"1. a\n\n   XXb", 9, 2}, {"\\XX", 1, 2},
 }
 
 func tmplJobs(entry string, ts []tmpl, cfgs []string, extra ...interface{}) []interp.Job {
@@ -215,14 +215,14 @@ func planC01(tier string, seed int64) (*Plan, error) {
 		p.Jobs = append(p.Jobs, windowJobs("H_c01_convert", docs, seed+1, 150, 2, []string{all})...)
 	}
 	p.Bounds = map[string]interface{}{
-		"S(2)":      "every byte string of length 0..2 (256 values per byte) x 36 configurations: " + fmt.Sprint(cfgs),
-		"S(3)":      "every byte string of length 3 x " + fmt.Sprint(s3),
+		"S(2)":          "every byte string of length 0..2 (256 values per byte) x 36 configurations: " + fmt.Sprint(cfgs),
+		"S(3)":          "every byte string of length 3 x " + fmt.Sprint(s3),
 		"S(L,alphabet)": fmt.Sprintf("every string of length %d over each alphabet %v x {core, all extensions+autoid+attr}", la, alphabets),
-		"tokens":    fmt.Sprintf("quick: every sequence of 6 (core) / 5 (all) tokens from 'contain5', 4 tokens from 'inlines9'/'blocks2'; thorough: 7 from 'containers', 5 from 'inlines'/'blocks2' x {core, all}: %v", tokenSets),
-		"templates": fmt.Sprintf("%d seed templates with a 2-byte fully symbolic window (link/image destinations, titles, labels, attributes, info strings, entities, raw HTML)", len(coreTemplates)),
-		"W(C,1)":    fmt.Sprintf("%d seeded (corpus document, offset) pairs with one fully symbolic byte, VERIF_SEED=%d; thorough adds W(C,2) on 150 pairs and S(4) core", nwin, seed),
-		"budget":    "20M SSA instructions per path stands for 'terminates'; a budget hit is replayed natively under a 20 s watchdog",
-		"outside":   "longer free-form inputs, wider windows, user extensions, failing writers (C14)",
+		"tokens":        fmt.Sprintf("quick: every sequence of 6 (core) / 5 (all) tokens from 'contain5', 4 tokens from 'inlines9'/'blocks2'; thorough: 7 from 'containers', 5 from 'inlines'/'blocks2' x {core, all}: %v", tokenSets),
+		"templates":     fmt.Sprintf("%d seed templates with a 2-byte fully symbolic window (link/image destinations, titles, labels, attributes, info strings, entities, raw HTML)", len(coreTemplates)),
+		"W(C,1)":        fmt.Sprintf("%d seeded (corpus document, offset) pairs with one fully symbolic byte, VERIF_SEED=%d; thorough adds W(C,2) on 150 pairs and S(4) core", nwin, seed),
+		"budget":        "20M SSA instructions per path stands for 'terminates'; a budget hit is replayed natively under a 20 s watchdog",
+		"outside":       "longer free-form inputs, wider windows, user extensions, failing writers (C14)",
 	}
 	p.Rule = "one job per (configuration, input family instance); every path of every job explored"
 	return p, nil
@@ -275,12 +275,12 @@ func planC19(tier string, seed int64) (*Plan, error) {
 	p.Jobs = append(p.Jobs, job("H_c19_bytesfilter", "keys", 6, "base", 3))
 	p.Jobs = append(p.Jobs, job("H_c19_bytesfilter", "keys", 5, "base", 2, "klen", 2, "alpha", "a!"))
 	p.Bounds = map[string]interface{}{
-		"EscapeHTML":               fmt.Sprintf("all byte strings of length 0..%d (256 values per byte)", nEsc),
-		"URLEscape(false)":         fmt.Sprintf("all byte strings of length 0..%d; length %d..%d over {%%,4,g,space,C3,A9,<}; %%XX triples with symbolic hex digits and 0..1 / 0..2 symbolic lower-case neighbours", nURL, nURL+1, nURL+2),
-		"resolvers":                fmt.Sprintf("all byte strings of length 0..%d; length %d over {&,#,x,1,;,\\,a,C3,A9}; &#x h{1..%d} ; (plus 8..17-digit references with a concrete prefix and two symbolic digits) and &# d{1..%d} ; with symbolic digits; & name{1..%d} ; with symbolic letters", nRes, nRes+2, kHex, kDec, kEnt),
-		"ToLinkReference":          fmt.Sprintf("all byte strings of length 0..%d plus length %d over {a,A,space,tab,C3,9F}; symbolic per-letter case flips and whitespace-run rewriting", nLink, nLink+2),
-		"BytesFilter":              "histories NewBytesFilter; Add×base; Extend; Extend; Add with 5-6 symbolic keys over a 5-byte alphabet in which four bytes share a hash bucket (1-byte keys), and 2-byte keys over {a,!}",
-		"outside":                  "longer inputs; keys longer than 2 bytes; histories longer than 6 operations",
+		"EscapeHTML":       fmt.Sprintf("all byte strings of length 0..%d (256 values per byte)", nEsc),
+		"URLEscape(false)": fmt.Sprintf("all byte strings of length 0..%d; length %d..%d over {%%,4,g,space,C3,A9,<}; %%XX triples with symbolic hex digits and 0..1 / 0..2 symbolic lower-case neighbours", nURL, nURL+1, nURL+2),
+		"resolvers":        fmt.Sprintf("all byte strings of length 0..%d; length %d over {&,#,x,1,;,\\,a,C3,A9}; &#x h{1..%d} ; (plus 8..17-digit references with a concrete prefix and two symbolic digits) and &# d{1..%d} ; with symbolic digits; & name{1..%d} ; with symbolic letters", nRes, nRes+2, kHex, kDec, kEnt),
+		"ToLinkReference":  fmt.Sprintf("all byte strings of length 0..%d plus length %d over {a,A,space,tab,C3,9F}; symbolic per-letter case flips and whitespace-run rewriting", nLink, nLink+2),
+		"BytesFilter":      "histories NewBytesFilter; Add×base; Extend; Extend; Add with 5-6 symbolic keys over a 5-byte alphabet in which four bytes share a hash bucket (1-byte keys), and 2-byte keys over {a,!}",
+		"outside":          "longer inputs; keys longer than 2 bytes; histories longer than 6 operations",
 	}
 	p.Rule = "one job per (function, length/template); all paths of each job explored"
 	return p, nil
